@@ -22,6 +22,12 @@ fn all_vec(bits: u32) -> Vec<u32> {
     (0..(1u64 << bits)).map(|x| x as u32).collect()
 }
 
+/// C16's quick tier re-runs every cell in two build profiles; it sets VERIF_LIGHT=1 so that the quick spaces
+/// of P32E2 fall back to the sparser lattices (the value checks themselves use the dense ones)
+pub fn light() -> bool {
+    std::env::var("VERIF_LIGHT").map(|v| v == "1").unwrap_or(false)
+}
+
 /// unary spaces of a type
 pub fn unary<T: Fx>(thorough: bool) -> Vec<(String, Space)> {
     unary_low::<T>(thorough, 12)
@@ -30,6 +36,7 @@ pub fn unary<T: Fx>(thorough: bool) -> Vec<(String, Space)> {
 /// unary spaces with a chosen lattice density for the quick tier of P32E2 (`low` = number of low bits taken
 /// from the menu {0, 1, ones, msb}; low = 0 means the complete 2^32 space also in the quick tier)
 pub fn unary_low<T: Fx>(thorough: bool, low: u32) -> Vec<(String, Space)> {
+    let low = if light() && !thorough { 12 } else { low };
     match T::N {
         8 => vec![(String::new(), Space::all(8))],
         16 => vec![(String::new(), Space::all(16))],
@@ -694,7 +701,7 @@ fn f32_space(thorough: bool) -> Vec<(String, Space)> {
         vec![(String::new(), Space::all(32))]
     } else {
         // sign x exponent x top 13 mantissa bits x low menu
-        vec![(String::new(), Space::func(lattice_len(32, 4), "f32 lattice: every sign/exponent/top-19-mantissa-bits x low-4-bit menu {0,1,0xf,0x8}", |i| lattice_key(32, 4, i) as u128))]
+        vec![(String::new(), { let low = if light() { 10 } else { 4 }; Space::func(lattice_len(32, low), format!("f32 lattice: every sign/exponent/top mantissa bits (top {} bits) x low menu", 32 - low), move |i| lattice_key(32, low, i) as u128) })]
     }
 }
 
@@ -912,7 +919,7 @@ fn int32_space(thorough: bool) -> Vec<(String, Space)> {
         vec![(String::new(), Space::all(32))]
     } else {
         vec![
-            (String::new(), Space::func(lattice_len(32, 4), "lattice(top 28 bits x low menu)", |i| lattice_key(32, 4, i) as u128)),
+            (String::new(), { let low = if light() { 12 } else { 4 }; Space::func(lattice_len(32, low), format!("lattice(top {} bits x low menu)", 32 - low), move |i| lattice_key(32, low, i) as u128) }),
             ("#small".into(), Space::func(1 << 18, "|x| < 2^17 contiguous", |i| (i as i64 - (1 << 17)) as i32 as u32 as u128)),
         ]
     }
